@@ -983,3 +983,128 @@ Qed.
 Lemma produce_record_format : forall v,
   (produce_record_version v = 2 <-> 3 <= v) /\ (produce_record_version v = 1 <-> v < 3).
 Proof. intro v. unfold produce_record_version. destruct (v <? 3) eqn:E; lia. Qed.
+
+(* ================================================================== *)
+(* split requests to coordinators: describe-groups *)
+
+Lemma split_describegroups_concat : forall gs, concat (split_describegroups gs) = gs.
+Proof.
+  induction gs as [|g gs IH]; [reflexivity|].
+  unfold split_describegroups in *. cbn [map concat app]. rewrite IH. reflexivity.
+Qed.
+
+Lemma split_describegroups_singletons : forall gs part,
+  In part (split_describegroups gs) -> exists g, part = [g] /\ In g gs.
+Proof.
+  intros gs part H. unfold split_describegroups in H. apply in_map_iff in H.
+  destruct H as [g [<- Hg]]. exists g. auto.
+Qed.
+
+(* the obligation of a split: a part is routed by its first group only, so it must be
+   homogeneous -- every group it names has the coordinator it is routed to.  Parts made by
+   Split are singletons, hence homogeneous for every coordinator assignment. *)
+Definition part_homogeneous (coord : coord_fn) (part : list name) : Prop :=
+  forall g g', In g part -> In g' part -> coord KT_Group g = coord KT_Group g'.
+
+Lemma split_describegroups_routed_by_every_group : forall gs part g,
+  In part (split_describegroups gs) -> In g part ->
+  describegroups_request part = Some (RGroup K_DescribeGroups g).
+Proof.
+  intros gs part g Hp Hg. destruct (split_describegroups_singletons gs part Hp) as [g0 [-> _]].
+  destruct Hg as [<-|[]]. reflexivity.
+Qed.
+
+Lemma split_describegroups_homogeneous : forall coord gs part,
+  In part (split_describegroups gs) -> part_homogeneous coord part.
+Proof.
+  intros coord gs part Hp g g' Hg Hg'. destruct (split_describegroups_singletons gs part Hp) as [g0 [-> _]].
+  destruct Hg as [<-|[]]. destruct Hg' as [<-|[]]. reflexivity.
+Qed.
+
+Lemma round_trip_describegroups : forall p gs fc,
+  ps_ready p = true ->
+  round_trip p (QDescribeGroups gs) fc =
+  RTSend (map (fun g => via_coordinator (ps_conns p) fc KT_Group g K_DescribeGroups) gs).
+Proof.
+  intros p gs fc H. unfold round_trip. rewrite H. cbn [negb]. f_equal.
+  unfold split_describegroups. rewrite map_map. reflexivity.
+Qed.
+
+(* ================================================================== *)
+(* the pool's reference count *)
+
+Definition rp_inv (s : rpool) : Prop :=
+  (rp_created s = false -> rp_registered s = false /\ rp_users s = 0 /\ rp_cancelled s = false)
+  /\ (rp_created s = true ->
+      rp_refs s = rp_users s + (if rp_registered s then 1 else 0)
+      /\ 0 <= rp_users s
+      /\ rp_cancelled s = (rp_refs s =? 0)).
+
+Lemma rp_inv_init : rp_inv rpool_init.
+Proof. split; cbn; intros; [auto | discriminate]. Qed.
+
+Lemma rp_step_inv : forall s l s', rp_inv s -> rp_step s l = Some s' -> rp_inv s'.
+Proof.
+  intros s l s' [I0 I1] H. unfold rp_step in H.
+  destruct l as [[| |]| |].
+  - (* GFast *)
+    destruct (rp_registered s) eqn:Er; [|discriminate]. inversion H; subst s'; clear H.
+    destruct (rp_created s) eqn:Ec.
+    + destruct (I1 eq_refl) as [A [B C]]. try rewrite Er in A. split; cbn; intros; [discriminate|].
+      try rewrite Ec in *. split; [lia|]. split; [lia|]. rewrite C.
+      destruct (rp_refs s =? 0) eqn:E1; destruct (rp_refs s + 1 =? 0) eqn:E2; lia.
+    + destruct (I0 eq_refl) as [A _]. congruence.
+  - (* GRecheck *)
+    destruct (rp_registered s) eqn:Er; [|discriminate]. inversion H; subst s'; clear H.
+    destruct (rp_created s) eqn:Ec.
+    + destruct (I1 eq_refl) as [A [B C]]. try rewrite Er in A. split; cbn; intros; [discriminate|].
+      try rewrite Ec in *. split; [lia|]. split; [lia|]. rewrite C.
+      destruct (rp_refs s =? 0) eqn:E1; destruct (rp_refs s + 1 =? 0) eqn:E2; lia.
+    + destruct (I0 eq_refl) as [A _]. congruence.
+  - (* GCreate *)
+    destruct (rp_created s); [discriminate|]. inversion H; subst s'. split; cbn; intros; [discriminate|]. lia.
+  - (* RDone *)
+    destruct (rp_users s >? 0) eqn:Eu; [|discriminate]. inversion H; subst s'; clear H.
+    destruct (rp_created s) eqn:Ec.
+    + destruct (I1 eq_refl) as [A [B C]]. split; cbn; intros; [congruence|].
+      split; [lia|]. split; [lia|]. rewrite C.
+      destruct (rp_registered s); destruct (rp_refs s =? 0) eqn:E1; destruct (rp_refs s - 1 =? 0) eqn:E2; cbn; lia.
+    + destruct (I0 eq_refl) as [_ [A _]]. lia.
+  - (* RCloseIdle *)
+    destruct (rp_registered s) eqn:Er; [|discriminate]. inversion H; subst s'; clear H.
+    destruct (rp_created s) eqn:Ec.
+    + destruct (I1 eq_refl) as [A [B C]]. try rewrite Er in A. split; cbn; intros; [congruence|].
+      split; [lia|]. split; [lia|]. rewrite C.
+      destruct (rp_refs s =? 0) eqn:E1; destruct (rp_refs s - 1 =? 0) eqn:E2; cbn; lia.
+    + destruct (I0 eq_refl) as [A _]. congruence.
+Qed.
+
+Lemma rp_run_inv : forall ls s s', rp_inv s -> rp_run s ls = Some s' -> rp_inv s'.
+Proof.
+  induction ls as [|l ls IH]; intros s s' I H; cbn [rp_run] in H.
+  - inversion H. subst. assumption.
+  - destruct (rp_step s l) as [s1|] eqn:E; [|discriminate]. eapply IH; [|eassumption]. eapply rp_step_inv; eassumption.
+Qed.
+
+(* every RoundTrip in progress holds a reference, and so does the registry: the context is not
+   cancelled (discover keeps running) while the pool is registered or in use *)
+Theorem pool_refs_cover_users : forall ls s,
+  rp_run rpool_init ls = Some s ->
+  rp_users s + (if rp_registered s then 1 else 0) <= rp_refs s \/ rp_created s = false.
+Proof.
+  intros ls s H. destruct (rp_run_inv ls _ _ rp_inv_init H) as [I0 I1].
+  destruct (rp_created s) eqn:Ec; [left | right; reflexivity].
+  destruct (I1 eq_refl) as [A _]. lia.
+Qed.
+
+Theorem pool_alive_while_registered_or_used : forall ls s,
+  rp_run rpool_init ls = Some s ->
+  (rp_registered s = true \/ 0 < rp_users s) -> rp_cancelled s = false.
+Proof.
+  intros ls s H Hu. destruct (rp_run_inv ls _ _ rp_inv_init H) as [I0 I1].
+  destruct (rp_created s) eqn:Ec.
+  - destruct (I1 eq_refl) as [A [B C]]. rewrite C.
+    destruct (rp_refs s =? 0) eqn:E; [|reflexivity]. exfalso.
+    destruct Hu as [Hu|Hu]; [rewrite Hu in A|destruct (rp_registered s)]; lia.
+  - destruct (I0 eq_refl) as [A [B C]]. assumption.
+Qed.
